@@ -1351,6 +1351,10 @@ class Engine:
 
     def e_Dict(self, fr, e, s):
         exprs = [x for x in list(e.keys) + list(e.values) if x is not None]
+        if all(isinstance(k, ast.Constant) and isinstance(k.value, str) and k.value.isidentifier() for k in e.keys) and (e.keys or not e.values):
+            # {} / {"name": value, ...} with identifier keys: entries known (usable as **kwargs while the name is not mutated)
+            names = [k.value for k in e.keys]
+            return [(s2, Obj(("kwdict", next(self.counter)), "builtins.dict", dict(zip(names, vs)))) for s2, vs in self.eval_seq(fr, list(e.values), s)]
         return [(s2, Unk(self.fresh("dict"))) for s2, _ in self.eval_seq(fr, exprs, s)]
 
     def _comp(self, fr, e, s):
@@ -2217,11 +2221,29 @@ class Engine:
                 kwargs = {}
                 for k, v in zip(e.keywords, vs[len(e.args):]):
                     if k.arg is None:
-                        starred_unknown = True
+                        # **d where d is a dict built from keywords in this function (dict(a=.., b=..) / dict()) and never
+                        # changed afterwards: its entries are the keyword arguments
+                        if isinstance(v, Obj) and isinstance(v.oid, tuple) and v.oid[:1] == ("kwdict",) and isinstance(k.value, ast.Name) \
+                                and not self._name_mutated(fr, k.value.id):
+                            kwargs.update(v.fields)
+                        else:
+                            starred_unknown = True
                     else:
                         kwargs[k.arg] = v
                 out.extend(self.call(fr, e, fn, args, kwargs, s2, starred_unknown))
         return out
+
+    def _name_mutated(self, fr, name):
+        f = fr.func
+        if f is None:
+            return True
+        for n in own_nodes(f.node):
+            if isinstance(n, (ast.Subscript, ast.Attribute)) and isinstance(n.ctx, (ast.Store, ast.Del)) and isinstance(n.value, ast.Name) and n.value.id == name:
+                return True
+            if isinstance(n, ast.Call) and isinstance(n.func, ast.Attribute) and isinstance(n.func.value, ast.Name) and n.func.value.id == name \
+                    and n.func.attr in ("update", "pop", "popitem", "clear", "setdefault", "__setitem__", "__delitem__"):
+                return True
+        return False
 
     def call(self, fr, e, fn, args, kwargs, s, starred_unknown=False):
         # bound method
@@ -2694,6 +2716,9 @@ class Engine:
             if len(args) == 1:
                 self.origin[t] = ("str", args[0])
             return [(s, Unk(t))]
+        if short == "dict" and not args and not starred_unknown:
+            # dict(a=x, b=y) / dict(): a dict whose entries are known (usable as **kwargs, see e_Call)
+            return [(s, Obj(("kwdict", next(self.counter)), "builtins.dict", dict(kwargs)))]
         if short == "itertools.product" and args and not kwargs:
             # the product of sequences of statically known length is its tuple of tuples (row-major, as itertools yields it)
             seqs = []
